@@ -35,7 +35,7 @@ func foldOpts() []gotype.FoldOption {
 	return []gotype.FoldOption{sharedFoldOpt}
 }
 
-var sharedFoldOpt = gotype.Folders(gomodel.FoldRegT, gomodel.FoldRDur)
+var sharedFoldOpt = gomodel.SharedFoldOpt
 
 // withSharedOpts decides (from the type alone) whether an instance for a type
 // that does not need the shared option values gets them anyway: half of the
@@ -326,6 +326,12 @@ func drawGoHistory(t *rapid.T, n int, tcfg gomodel.TypeCfg, vcfg func() gomodel.
 	var prev []*gomodel.TypeDesc
 	for i := 0; i < n; i++ {
 		td := gomodel.DrawRelatedType(t, prev, tcfg)
+		if len(prev) > 0 && rapid.IntRange(0, 1).Draw(t, "sameagain") == 0 {
+			// the very same type again with another value: what an instance
+			// compiled (and memoised) for one value meets other dynamic types,
+			// other nil-ness, other emptiness
+			td = prev[rapid.IntRange(0, len(prev)-1).Draw(t, "sameidx")]
+		}
 		typ, err := gomodel.Build(td)
 		if err != nil {
 			t.Fatalf("harness: %v", err)
